@@ -77,6 +77,9 @@ type rigStream struct {
 	accepted int64 // bytes of completed, successful writes
 	attempted int64 // bytes handed to Write calls (completed or not)
 	wrErr    error
+	wrExpectFail   bool  // the in-flight write was started after a local close or a processed peer close
+	wrAfterCloseOK int   // writes that succeeded although started after close
+	handedAtClose  int64 // bytes handed to this side's receive buffer when it called Close
 
 	closeBusy   bool
 	closeCh     chan error
@@ -96,6 +99,7 @@ type rigRecord struct {
 	closing uint8
 	end     int64 // end offset in the wire stream of its link/direction
 	ok      bool
+	plen    int // payload length
 }
 
 type rig struct {
@@ -221,15 +225,15 @@ func (r *rig) records(li int, d vk.Dir) []rigRecord {
 	if r.cfg.Plain {
 		for _, e := range r.links[li].Events(d) {
 			msg := wire[e.Off : e.Off+int64(e.Len)]
-			sid, seq, cl, ok := r.ref.PeekHeader(msg)
-			out = append(out, rigRecord{sid, seq, cl, e.Off + int64(e.Len), ok})
+			sid, seq, cl, ex, ok := r.ref.PeekHeader(msg)
+			out = append(out, rigRecord{sid, seq, cl, e.Off + int64(e.Len), ok, len(msg) - 14 - int(ex)})
 		}
 		return out
 	}
 	recs, _ := vk.SplitTLSRecords(wire)
 	for _, rec := range recs {
-		sid, seq, cl, ok := r.ref.PeekHeader(rec.Body)
-		out = append(out, rigRecord{sid, seq, cl, int64(rec.Off + 5 + len(rec.Body)), ok})
+		sid, seq, cl, ex, ok := r.ref.PeekHeader(rec.Body)
+		out = append(out, rigRecord{sid, seq, cl, int64(rec.Off + 5 + len(rec.Body)), ok, len(rec.Body) - 14 - int(ex)})
 	}
 	return out
 }
@@ -256,12 +260,6 @@ func (r *rig) noteDelivery(li int, d vk.Dir, before, after int64) {
 					}
 				}
 			}
-		}
-		if rec.end > after && rec.end-after > 0 {
-			// first incomplete record: was it cut?
-			start := rec.end
-			_ = start
-			break
 		}
 	}
 	// a record was split if 'after' is strictly inside a record
@@ -411,6 +409,14 @@ func (r *rig) onRead(s *rigStream, res ioRes) error {
 }
 
 func (r *rig) onWrite(s *rigStream, res ioRes) {
+	if s.wrExpectFail {
+		if res.err == nil || res.n > 0 {
+			s.wrAfterCloseOK++
+		}
+		s.attempted -= int64(s.wrSize) - int64(res.n)
+		s.accepted += int64(res.n)
+		return
+	}
 	if res.err == nil || (s.wrFrom && errors.Is(res.err, io.EOF)) {
 		s.accepted += int64(res.n)
 		if !s.wrFrom && res.n != s.wrSize {
@@ -449,6 +455,8 @@ func (r *rig) startWrite(s *rigStream, size int) {
 	s.wrBusy = true
 	s.wrFrom = false
 	s.wrSize = size
+	_, peerCloseProcessed := r.recvState(s.id, dirOf(1-s.side))
+	s.wrExpectFail = s.closeDone || peerCloseProcessed
 	s.wrCh = make(chan ioRes, 1)
 	ch := s.wrCh
 	st := s.st
@@ -518,6 +526,9 @@ func (r *rig) startClose(s *rigStream) {
 		return
 	}
 	s.closeBusy = true
+	if !s.closeCalled {
+		s.handedAtClose, _ = r.recvState(s.id, dirOf(1-s.side))
+	}
 	s.closeCalled = true
 	s.closeAtAccepted = s.accepted
 	s.closeCh = make(chan error, 1)
@@ -650,4 +661,28 @@ func (r *rig) allStreams() []*rigStream {
 		}
 	}
 	return all
+}
+
+// recvState computes, from the tap and the delivery counters, what the receiver of direction d of stream id
+// must have been handed so far: the payload bytes of the contiguous prefix of fully delivered frames, and
+// whether the stream-closing frame is next in line (i.e. the close has been processed).
+func (r *rig) recvState(id uint32, d vk.Dir) (handed int64, closeProcessed bool) {
+	bySeq := map[uint64]rigRecord{}
+	for li := range r.links {
+		for _, rec := range r.records(li, d) {
+			if rec.ok && rec.sid == id && rec.end <= r.delivered[d][li] {
+				bySeq[rec.seq] = rec
+			}
+		}
+	}
+	for seq := uint64(0); ; seq++ {
+		rec, ok := bySeq[seq]
+		if !ok {
+			return handed, false
+		}
+		if rec.closing == closingStream {
+			return handed, true
+		}
+		handed += int64(rec.plen)
+	}
 }
